@@ -9,7 +9,7 @@
    400 steps per name), so "not OutOfFuel" is the statement that the work is
    bounded by the input length whatever counts, RDLENGTHs and pointers claim.
    Real allocation and wall time are measured by the harness (partial). *)
-From Dns Require Import Model.Msg Proofs.DecodeNameProofs Proofs.DecodeFieldsProofs Proofs.DecodeMsgProofs.
+From Dns Require Import Model.Msg Proofs.DecodeNameProofs Proofs.DecodeFieldsProofs Proofs.DecodeMsgProofs Gen.Consts.
 Open Scope N_scope.
 
 (* the name decoder: total, at most 400 loop iterations for any pointer graph *)
@@ -51,3 +51,10 @@ Theorem accepted_records_bounded_by_input :
     wfb bs -> unpack_msg bs = Ok (m, false) ->
     N.of_nat (length (m_question m) + length (m_answer m) + length (m_ns m) + length (m_extra m)) <= lenN bs - 12.
 Proof. exact accepted_sections_bounded. Qed.
+
+(* the limits of the model are the constants of the current source (Gen/Consts.v is
+   regenerated from msg.go on every run): a changed limit breaks this obligation *)
+Theorem decoder_limits_are_the_source_constants :
+  max_pointers = Gen.Consts.c_maxCompressionPointers /\
+  max_name_wire = Gen.Consts.c_maxDomainNameWireOctets.
+Proof. split; reflexivity. Qed.
